@@ -13,6 +13,15 @@ CHECKS = {
  "C08": ("E-INPUT x E-CHOICE", "exhaustive enumeration of games x parameter tuples x budgets and of all sampling-decision histories (stateless DFS over the two draw sites), real solver vs executable textbook specification under the same decisions",
          "Each (game, method, parameter tuple, budget, draw history) case runs the real solver with its random generator scripted through the sampling hook and the textbook discounted-CFR reference under the same decisions; strategies, draw sites and the distributions handed to the sampler are compared. All histories are enumerated up to 3 (chance-sampled) / 2 (external) iterations; longer budgets use hash-pinned histories (labelled as a finite selection).",
          "Trusted: harness/src/refcfr.rs as the specification; rand/rand_distr internals only for turning a chosen outcome into generator words (a wrong word makes the production sampler return another index, which is reported). Ties/near-zero regret sums are discontinuities: differing runs there are counted, not judged.", "5 C08"),
+ "C05": ("E-INPUT x E-CHOICE", "bounded-exhaustive enumeration of games x methods x the full parameter alphabet x budgets x thresholds x thread counts, plus every sampling-decision history of the short budgets on the fallback extremes; oracle = well-formedness of what is returned, no panic / error / hang",
+         "Every (game, method, parameter tuple incl. +-inf / 0 / |1e3| exponents, presets and None, budget incl. 0, threshold incl. negative / +inf / NaN, thread count incl. 0, > nodes and the usize::MAX/3 overflow boundary) case runs the real solver inside catch_unwind under a watchdog; the returned profile is read through as_named, the dense vector and get_info. For budgets <= 3 (chance-sampled) / 2 (external) every draw history is enumerated, so the arg-max / partial_cmp paths are covered under every history.",
+         "Actually spawning usize::MAX/3 OS threads is environment behaviour and not explored. Schedules of the multi-threaded runs here are whatever the pool produces (exhaustive schedule exploration is C06/C07's loom harness).", "5 C05"),
+ "C09": ("E-INPUT x E-CHOICE", "transition-system enumeration: prefix runs solve(t,0), t=0..N, are the states; every thresholded run solve(N,r), r below/at/above every bound value of the run, must be bitwise the state at the first hit",
+         "For every game x method (sampled ones under pinned draw histories) x preset x budget N <= 8 (12 thorough) x thresholds {-1,-0,0,NaN,+inf} u {prev(b_t), b_t, next(b_t)} for every bound b_t along the run, solve(N,r) is compared bitwise with the unthresholded prefix run at t* = first t with bound < r; both the single-threaded and the multi-threaded implementation (single-task frontier) are explored.",
+         "Sampled methods are explored under one hash-pinned history per game (the claim relates prefixes of one run; C08 enumerates histories).", "5 C09"),
+ "C10": ("E-INPUT x E-CHOICE", "exhaustive enumeration of weight vectors x uniform variates at and around every cumulative boundary for the categorical sampler; exhaustive alias-table reconstruction by a scripted generator; every draw of every enumerated history checked against the declared distributions",
+         "(a) the private categorical sampler is called (hook) on every weight vector with denominators 8 of length <= 4 and every variate at, just below, just above every cumulative boundary and mid-interval; (b) the production alias sampler of every chance infoset is reconstructed column by column with a scripted generator and must realise the declared weights; (c) on every enumerated draw history of every game the draw log must show one draw per (infoset, pass) with exactly the declared chance weights / the opponent's current strategy, no draws for the unsampled method and no player draws for the chance-sampled one.",
+         "rand's Uniform / Standard float conversion is trusted only to the extent that a scripted word reproduces the intended variate, which the log cross-checks.", "5 C10"),
  "C11": ("E-INPUT", "bounded-exhaustive enumeration of valid and invalid trees (labellings, action-list variants, single and paired local corruptions) vs a reference validator",
          "Every raw tree shape within the bounds x every labelling over a sharing-forcing alphabet x chance labels x weights x action-list variants, plus every single (and on small shapes every pair of) local corruption, is passed to Game::from_root; Ok <=> the reference validator finds no violated rule, Err names a violated rule, never panics, accepted games survive evaluation and solving.",
          "Trusted: refmodel::ref_validate (textbook perfect recall over experience sequences). Weight sums that overflow and non-dyadic rescalings inside a shared chance infoset are outside the alphabet.", "5 C11"),
